@@ -13,6 +13,7 @@ Decides:
      matching kind.
   c. https URLs that point into the registry register their package.
   d. add_nv records requirement -> nv and indexes the nv by name.
+  f. lockfile-seeded redirects are never keyed by jsr: / npm: / file: specifiers.
 """
 from .lib import *
 from .lib import _tail_values
@@ -229,6 +230,23 @@ def run(F, R, tier):
     R.ob("C07-d", "add_nv records requirement -> name@version on every path", len(ins) == 1 and not bad, "package_reqs.insert skipped on some path", an["file"])
     byn = [n for n in an["_nodes"] if n.get("k") == "Field" and n["field"] == "packages_by_name"]
     R.ob("C07-d", "add_nv indexes the selection by package name (feeds tier-1 unification)", len(byn) >= 1 and any(n.get("k") == "MethodCall" and n["name"] == "push" for n in an["_nodes"]), "packages_by_name no longer updated", an["file"])
+
+    # ---------------- C07-f ------------------------------------------------
+    # redirects seeded from a lockfile never shadow a jsr: / npm: / file: specifier: a jsr:
+    # specifier must go through resolve_pending_jsr_specifiers (export lookup, mappings,
+    # dependency attribution), so a seeded redirect keyed by one would bypass all of it
+    fl_ = F.body("graph::ModuleGraph::fill_from_lockfile")
+    ri = [n for n in fl_["_nodes"] if n.get("k") == "MethodCall" and n["name"] == "insert" and field_of(n["recv"]) == "redirects"]
+    if R.ob("C07-f", "lockfile redirects are seeded in one place", len(ri) == 1, "fill_from_lockfile inserts redirects at %d site(s)" % len(ri), fl_["file"]):
+        key = peel_value(ri[0]["args"][0])
+        ok = False
+        for x in guards_at(F, ri[0]):
+            if x.kind == "pat" and not x.pol and all(s_ in pat_text(x.pat) for s_ in ("jsr", "npm", "file")):
+                sc = peel(x.scrut)
+                if sc.get("k") == "MethodCall" and sc["name"] == "scheme" and peel_value(sc["recv"]).get("lid") == key.get("lid"):
+                    ok = True
+        R.ob("C07-f", "a seeded redirect is never keyed by a jsr: / npm: / file: specifier", ok,
+             "fill_from_lockfile accepts a redirect whose *source* has scheme jsr/npm/file (the scheme test is not on the inserted key `%s`): a later build follows it straight to the target URL and the registry resolution for that specifier (export lookup, mappings, dependency records) never runs" % expr_text(ri[0]["args"][0]), where(ri[0]))
 
 
 def guards_differ(F, a, b):
